@@ -194,7 +194,9 @@ class FalsyStrictUndefined(StrictUndefined):
         return False
 
     def __eq__(self, other: object) -> bool:
-        return other is False
+        # Equal to what the default `Undefined` is equal to, so that a render that
+        # succeeds gives the same output under both policies.
+        return isinstance(other, Undefined) or other is None
 
 
 def is_undefined(obj: object) -> TypeGuard[Undefined]:
